@@ -238,6 +238,29 @@ fn explore_request(cx: &Ctx<'_>, vars: &Map<String, Json>, devs: &[(Path, Dev)],
     Some(n)
 }
 
+/// Long lists: the schedule space of a 300-item list cannot be enumerated completely, so it is
+/// explored by deviation bound: the all-ready schedule (0 deviations) and every schedule with
+/// exactly one non-default answer (1 deviation), each run to completion.
+fn explore_request_bounded(cx: &Ctx<'_>, vars: &Map<String, Json>, devs: &[(Path, Dev)], st: &mut Stats) {
+    let Ok(sref) = sync_reference(cx, vars, devs) else {
+        st.count("requests without a sync response (skipped)", 1);
+        return;
+    };
+    let base = run_schedule(cx, vars, devs, &sref, vec![], st);
+    if base.diverged.is_some() {
+        return;
+    }
+    st.count("long-list requests explored (deviation bound 1)", 1);
+    st.outcome(&format!("long-list request with {} futures / stream polls", base.trace.len() / 50 * 50));
+    for i in 0..base.trace.len() {
+        for alt in 1..base.trace[i].menu {
+            let mut p = base.trace[..i].to_vec();
+            p.push(ChoicePoint { choice: alt, ..base.trace[i].clone() });
+            let _ = run_schedule(cx, vars, devs, &sref, p, st);
+        }
+    }
+}
+
 /// the behaviours that matter for scheduling (C26 explores the full menu)
 fn menu27(sc: &SchemaCx, ty: &refmodel::ast::Ty) -> Vec<Dev> {
     let mut seen_leaf = false;
@@ -264,9 +287,18 @@ fn explore_op(cx: &Ctx<'_>, k: usize, st: &mut Stats) {
             for d in menu27(cx.sc, ty) {
                 explore_request(cx, vars, &[(pos.clone(), d)], st);
             }
+            // long lists at every list-typed position (run lengths around apollo's and the usual
+            // cooperative-yield budgets: 127 | 128 | 129 | 300 items)
+            if matches!(ty, refmodel::ast::Ty::List(_)) || matches!(ty, refmodel::ast::Ty::NonNull(inner) if matches!(**inner, refmodel::ast::Ty::List(_))) {
+                for n in if cx.max_pending > 1 { LONG_LISTS } else { &LONG_LISTS[2..3] } {
+                    explore_request_bounded(cx, vars, &[(pos.clone(), Dev::List(*n))], st);
+                }
+            }
         }
     }
 }
+
+const LONG_LISTS: &[usize] = &[127, 128, 129, 300];
 
 fn replay(case: &Json, st: &mut Stats) {
     let scs = schemas();
@@ -345,6 +377,7 @@ fn main() {
         "choice_menu": ["ready", "pending + wake during the poll", "pending + wake when the executor is idle"],
         "max_futures_and_stream_polls_per_request": max_points,
         "horizon": "10 x (choice points + 1) root polls",
+        "long_lists": {"lengths": if max_pending > 1 { LONG_LISTS } else { &LONG_LISTS[2..3] }, "positions": "every list-typed position visited by the default world", "schedules": "all-ready and every single non-default answer (deviation bound 1)"},
         "schedules": schedules,
         "requests": requests,
         "max_choice_points": maxp,
